@@ -286,7 +286,8 @@ struct HdrSession {
                                 report_fault(rr, h, gc.fi, api ? "isal_deflate (wrapper header)" : "isal_deflate_stateless (wrapper header)");
                                 return;
                         }
-                        size_t produced = ao - std::min<size_t>(ao, st->avail_out);
+                        size_t left = st->avail_out;
+                        size_t produced = left < ao ? ao - left : 0;
                         got.insert(got.end(), so->data, so->data + produced);
                         h.rec("codec", { (int64_t) call, (int64_t) ao, ret, (int64_t) produced });
                         if (!g_arena.canary_ok(so) || !g_arena.canary_ok(ss) || !g_arena.canary_ok(sl)) {
